@@ -20,7 +20,7 @@ for name in cfg["metrics"]:
     mm = getattr(af.Metrics, name) if mm is None else mm | getattr(af.Metrics, name)
 spec.mapper.metrics = mm
 try:
-    res = map_workload_to_arch(spec, cache_dir=cfg.get("cache_dir"), print_progress=False)
+    res = map_workload_to_arch(spec, einsum_names=cfg.get("einsum_names"), cache_dir=cfg.get("cache_dir"), print_progress=False)
     rows = []
     for i in range(len(res)):
         objs = {c: round(float(res.data[c].iloc[i]), 6) for c in res.columns if c.startswith("Total<SEP>") and "mapping" not in c}
